@@ -709,8 +709,12 @@ func c05workers(c *Ctx) {
 	// the gate in front of the bounded walk: the unbounded variant is chosen only by the explicit option
 	if f := c.fn("C05.R6", "core/fx", "(Stream).Walk"); f != nil {
 		ps := c.paths("C05.R6", f, px.Config{})
-		unl := func(e *px.Event) bool { return e.Kind == px.EvCall && e.Call.Static != nil && e.Call.Static.Name() == "walkUnlimited" }
-		lim := func(e *px.Event) bool { return e.Kind == px.EvCall && e.Call.Static != nil && e.Call.Static.Name() == "walkLimited" }
+		unl := func(e *px.Event) bool {
+			return e.Kind == px.EvCall && e.Call.Static != nil && e.Call.Static.Name() == "walkUnlimited"
+		}
+		lim := func(e *px.Event) bool {
+			return e.Kind == px.EvCall && e.Call.Static != nil && e.Call.Static.Name() == "walkLimited"
+		}
 		c.forall("C05.R6", "core/fx.(Stream).Walk#gate", "the unbounded walk runs only when the unlimitedWorkers option was found set; every other path takes the walk bounded by the worker semaphore (no heuristic about the source decides that nothing needs throttling)", f, ps, func(p *px.Path) (bool, string) {
 			if p.Exit != px.ExitReturn {
 				return true, ""
